@@ -220,6 +220,16 @@ func parseModel(out string) map[string]string {
 }
 
 func (r *Report) writeEvidence(discharged int, byBackend map[string]int, solverTime float64, knownHit, stale []string, violations int, toolErrs []string) {
+	knownInstances := 0
+	for _, ob := range r.obs {
+		if ob.Verdict != "unsat" {
+			for _, k := range knownHit {
+				if k == ob.Name {
+					knownInstances++
+				}
+			}
+		}
+	}
 	type fnInfo struct {
 		Name        string `json:"name"`
 		Pos         string `json:"pos"`
@@ -312,8 +322,9 @@ func (r *Report) writeEvidence(discharged int, byBackend map[string]int, solverT
 		"seed":        r.seed,
 		"level":       "proof",
 		"coverage": map[string]interface{}{
-			"obligations":              len(r.obs),
+			"obligations":              len(r.obs) - knownInstances,
 			"discharged":               discharged,
+			"known_finding_obligation_instances_not_counted": knownInstances,
 			"checker_cmd":              fmt.Sprintf("bin/gvc check %s --tier %s", r.id, r.tier),
 			"trusted_base":             trusted,
 			"functions_under_contract": fns,
